@@ -367,47 +367,50 @@ func (c c09child) Exec(op string) string {
 // c09.redir <k|d|n>   a Redis processor in front of node A, which answers GET with MOVED to node B (no connection to B yet). The read
 // loop of A's connection is parked right after the quit check of MakeRequestToHost (pause point upstream.request.checked reached
 // from loopRead).  k: Stop is called while it is parked, 150 ms later it is released;  d: the same with node B silent (its accept
-// is delayed by 200 ms);  n: it is released first, then Stop.
-//   -> stop=<ok|hangs> up=<closed>/<accepted> leaked=<goroutines>   (measured up to 2.5 s after Stop was called)
+// is delayed by 200 ms);  n: it is released first, then Stop;  h: no parking — the connect to B hangs (full backlog) while Stop is
+// called, then B accepts again and the connect completes about a second later: Stop must have waited for it and closed it.
+//
+//	-> stop=<ok|hangs> up=<closed>/<accepted> leaked=<goroutines>   (measured up to 2.5 s after Stop was called)
 func (c09child) redir(mode string) string {
-	if mode != "k" && mode != "d" && mode != "n" {
+	if mode != "k" && mode != "d" && mode != "n" && mode != "h" {
 		return "bad-op"
 	}
 	baseG := runtime.NumGoroutine()
 	var mu sync.Mutex
 	accepted, closed := 0, 0
+	serveConn := func(c net.Conn, reply func(cmd string) string, delay time.Duration) {
+		mu.Lock()
+		accepted++
+		mu.Unlock()
+		defer func() {
+			c.Close()
+			mu.Lock()
+			closed++
+			mu.Unlock()
+		}()
+		time.Sleep(delay)
+		dec := redis.VerifNewDecoder(c, 4096)
+		for {
+			v, err := dec.Decode()
+			if err != nil {
+				return
+			}
+			cmd := ""
+			if len(v.Array) > 0 {
+				cmd = strings.ToLower(string(v.Array[0].Text))
+			}
+			if _, err := c.Write([]byte(reply(cmd))); err != nil {
+				return
+			}
+		}
+	}
 	serveNode := func(ln net.Listener, reply func(cmd string) string, delay time.Duration) {
 		for {
 			c, err := ln.Accept()
 			if err != nil {
 				return
 			}
-			mu.Lock()
-			accepted++
-			mu.Unlock()
-			go func() {
-				defer func() {
-					c.Close()
-					mu.Lock()
-					closed++
-					mu.Unlock()
-				}()
-				time.Sleep(delay)
-				dec := redis.VerifNewDecoder(c, 4096)
-				for {
-					v, err := dec.Decode()
-					if err != nil {
-						return
-					}
-					cmd := ""
-					if len(v.Array) > 0 {
-						cmd = strings.ToLower(string(v.Array[0].Text))
-					}
-					if _, err := c.Write([]byte(reply(cmd))); err != nil {
-						return
-					}
-				}
-			}()
+			go serveConn(c, reply, delay)
 		}
 	}
 	lnA, err := net.Listen("tcp", "127.0.0.1:0")
@@ -415,12 +418,25 @@ func (c09child) redir(mode string) string {
 		return "sockerr"
 	}
 	defer lnA.Close()
-	lnB, err := net.Listen("tcp", "127.0.0.1:0")
-	if err != nil {
-		return "sockerr"
+	// mode h: connects to B hang (and complete about a second later, once B accepts again)
+	var hang *hx.HangListener
+	var lnB net.Listener
+	addrB := ""
+	if mode == "h" {
+		hang, err = hx.NewHangListener()
+		if err != nil {
+			return "sockerr"
+		}
+		defer hang.Close()
+		addrB = hang.Addr
+	} else {
+		lnB, err = net.Listen("tcp", "127.0.0.1:0")
+		if err != nil {
+			return "sockerr"
+		}
+		defer lnB.Close()
+		addrB = lnB.Addr().String()
 	}
-	defer lnB.Close()
-	addrB := lnB.Addr().String()
 	go serveNode(lnA, func(cmd string) string {
 		if cmd == "get" {
 			return "-MOVED 1 " + addrB + "\r\n"
@@ -431,17 +447,36 @@ func (c09child) redir(mode string) string {
 	if mode == "d" {
 		bDelay = 200 * time.Millisecond
 	}
-	go serveNode(lnB, func(cmd string) string {
+	replyB := func(cmd string) string {
 		if cmd == "get" {
 			return "$1\r\nv\r\n"
 		}
 		return "-ERR not now\r\n"
-	}, bDelay)
+	}
+	if lnB != nil {
+		go serveNode(lnB, replyB, bDelay)
+	}
 	reached, release := make(chan struct{}), make(chan struct{})
 	var once sync.Once
 	redis.VerifSetPause(func(point string, obj interface{}) {
 		if point != "upstream.request.checked" {
 			return
+		}
+		if mode == "h" {
+			// only signal that the read loop is on its way to the (hanging) connect
+			var pcs [32]uintptr
+			n := runtime.Callers(2, pcs[:])
+			fr := runtime.CallersFrames(pcs[:n])
+			for {
+				f, more := fr.Next()
+				if strings.HasSuffix(f.Function, "(*client).loopRead") {
+					once.Do(func() { close(reached) })
+					return
+				}
+				if !more {
+					return
+				}
+			}
 		}
 		var pcs [32]uintptr
 		n := runtime.Callers(2, pcs[:])
@@ -463,6 +498,9 @@ func (c09child) redir(mode string) string {
 	})
 	defer redis.VerifSetPause(nil)
 	ct := time.Second
+	if mode == "h" {
+		ct = 4 * time.Second // the pending connect completes with the SYN retransmission after about a second
+	}
 	cfg := &service.Config{
 		Listener:        &service.Listener{Address: &common.Address{Ip: "127.0.0.1", Port: 0}},
 		ConnectTimeout:  &ct,
@@ -500,7 +538,16 @@ func (c09child) redir(mode string) string {
 	}
 	stopDone := make(chan struct{})
 	stop := func() { go func() { p.Stop(); close(stopDone) }() }
-	if mode == "n" {
+	wait := 2500 * time.Millisecond
+	if mode == "h" {
+		// the connect to B is pending (createClient holds the lock): Stop, then let B accept again
+		time.Sleep(100 * time.Millisecond)
+		stop()
+		time.Sleep(200 * time.Millisecond)
+		hang.Release(func(c net.Conn) { serveConn(c, replyB, 0) })
+		close(release)
+		wait = 4 * time.Second
+	} else if mode == "n" {
 		close(release)
 		time.Sleep(50 * time.Millisecond)
 		stop()
@@ -513,9 +560,13 @@ func (c09child) redir(mode string) string {
 	select {
 	case <-stopDone:
 		res = "ok"
-	case <-time.After(2500 * time.Millisecond):
+	case <-time.After(wait):
 	}
 	cl.C.Close()
+	if mode == "h" {
+		// a connection published after Stop's snapshot shows up only once its connect has completed
+		time.Sleep(1200 * time.Millisecond)
+	}
 	leaked := 0
 	for i := 0; i < 100; i++ {
 		mu.Lock()
@@ -639,7 +690,7 @@ func (c *c09) Gen(r *hx.Run) {
 	}
 	// Stop while a backend connection's read loop follows a redirection (F-09h)
 	for i := 0; i < r.N(2, 10); i++ {
-		for _, m := range []string{"k", "n", "d"} {
+		for _, m := range []string{"k", "n", "d", "h"} {
 			r.Do("c09.redir "+m, true, "redir")
 		}
 	}
